@@ -12,7 +12,6 @@ import (
 )
 
 type (
-	Mutex     = sync.Mutex
 	WaitGroup = sync.WaitGroup
 	Once      = sync.Once
 	Cond      = sync.Cond
@@ -112,5 +111,45 @@ func HeldBy(m *RWMutex, t *sched.T) bool {
 	return t.Held[m] > 0
 }
 
-func OnceFunc(f func()) func()                     { return sync.OnceFunc(f) }
-func NewCond(l sync.Locker) *sync.Cond             { return sync.NewCond(l) }
+func OnceFunc(f func()) func()         { return sync.OnceFunc(f) }
+func NewCond(l sync.Locker) *sync.Cond { return sync.NewCond(l) }
+
+// Mutex is scheduler-aware (a real sync.Mutex outside exploration).
+type Mutex struct {
+	real  sync.Mutex
+	owner *sched.T
+}
+
+func (m *Mutex) Lock() {
+	t := sched.Current()
+	if t == nil {
+		m.real.Lock()
+		return
+	}
+	sched.Point("mutex-lock")
+	sched.Block("mutex-wait", func() bool { return m.owner != nil })
+	m.owner = t
+	t.Held[m]++
+}
+
+func (m *Mutex) Unlock() {
+	t := sched.Current()
+	if t == nil {
+		m.real.Unlock()
+		return
+	}
+	m.owner = nil
+	delete(t.Held, m)
+	sched.Point("mutex-unlock")
+}
+
+func (m *Mutex) TryLock() bool {
+	if sched.Current() == nil {
+		return m.real.TryLock()
+	}
+	if m.owner != nil {
+		return false
+	}
+	m.Lock()
+	return true
+}
